@@ -46,8 +46,9 @@ UNPROVED = [
     "validate-then-warn: warnings are outside the model; the oracle checks them on the real code",
     "weightOkTok thresholds (1+2^-53, -2^-1075) equal binary64 rounding of the decimal token: argued in "
     "MirModel/IO.lean, exercised on boundary tokens, not proved (no binary64 model)",
-    "typed round-trip corollaries are proved for load_events and load_labeled_intervals only; the other wrappers "
-    "are projections of the same loadTable theorem (load_table_roundtrip)",
+    "typed round-trip corollaries are proved for load_events, load_labeled_events, load_intervals, "
+    "load_labeled_intervals, load_time_series and load_valued_intervals (load_<name>_roundtrip), key / tempo / ragged / "
+    "patterns have their own theorems; load_wav is outside the property",
 ]
 
 TMPDIR = os.path.join(core.WORK, "c20_tmp")
